@@ -1506,6 +1506,107 @@ def norm_bv(m):
 _RE_NARGS = {"sub": (2, 3), "subn": (2, 3), "split": (1, 2), "findall": (1, 1), "finditer": (1, 1), "search": (1, 1), "match": (1, 1), "fullmatch": (1, 1)}
 
 
+def _const_tree(v, depth=0) -> bool:
+    """a conditional value (phi / ifexp tree) whose every leaf is a constant"""
+    if v[0] in ("phi", "ifexp") and len(v) == 4 and depth < 64:
+        return _const_tree(v[2], depth + 1) and _const_tree(v[3], depth + 1)
+    return v[0] == "const"
+
+
+def _map_leaves(v, f):
+    if v[0] in ("phi", "ifexp") and len(v) == 4:
+        return (v[0], v[1], _map_leaves(v[2], f), _map_leaves(v[3], f))
+    return f(v)
+
+
+def _bool_of_tree(v):
+    """the condition a phi tree with True / False leaves states: `c ? True : (d ? False : True)` is `c or not d`"""
+    if v[0] not in ("phi", "ifexp"):
+        return v
+    c, a, b = v[1], _bool_of_tree(v[2]), _bool_of_tree(v[3])
+    T, F = ("const", True), ("const", False)
+    neg = ("unop", "Not", c)
+
+    def join(op, x, y):
+        parts = tuple(z for w in (x, y) for z in (w[2] if w[0] == "bool" and w[1] == op else (w,)))
+        return ("bool", op, parts)
+    if a == b:
+        return a
+    if (a, b) == (T, F):
+        return c
+    if (a, b) == (F, T):
+        return neg
+    if a == F:
+        return join("And", neg, b)
+    if a == T:
+        return join("Or", c, b)
+    if b == F:
+        return join("And", c, a)
+    if b == T:
+        return join("Or", neg, a)
+    return (v[0], c, a, b)
+
+
+def _simp_selection(v):
+    """First-match selection from a table of known rows, and what is done with the selected constant:
+
+        next((E(r) for r in <display> if C(r)), D)   ->  phi(C(r1), E(r1), phi(C(r2), E(r2), .. D))     (the scan written out; without D the
+                                                         last arm is the StopIteration the call raises)
+        <conditional constant> is None / == K        ->  the condition under which the selected constant satisfies the test
+        getattr(x, <conditional constant>)           ->  the conditional of the attributes x.<name>
+        <conditional callable>(args)                 ->  the conditional of the calls  (x.<name>(args) is the method call)
+
+    so that `name = next(..table..); if name is None: raise; getattr(self, name)(reac)` is read as the if/elif chain of method calls it
+    abbreviates.  None when `v` is none of these."""
+    k = v[0]
+    if k == "call" and v[1] == ("global", "next") and len(v[2]) in (1, 2) and not v[3]:
+        src = v[2][0]
+        dflt = v[2][1] if len(v[2]) == 2 else ("raise", ("global", "StopIteration"))
+        if src[0] == "list" and not any(e[0] == "star" for e in src[1]):
+            return src[1][0] if src[1] else dflt           # (a generator over known rows whose filters were all decided)
+        if src[0] == "comp" and src[1] == "gen" and len(src[3]) == 1 and src[3][0][0] is not None and src[3][0][1][0] in ("tuple", "list") \
+                and 0 < len(src[3][0][1][1]) <= 64 and not any(e[0] == "star" for e in src[3][0][1][1]):
+            tg, it, ifs = src[3][0]
+            names = [tg] if tg[0] == "bv" else list(tg[1]) if tg[0] == "tuple" and all(t is not None and t[0] == "bv" for t in tg[1]) else None
+            rows = []
+            for e in (it[1] if names is not None else ()):
+                if tg[0] == "bv":
+                    rows.append({tg: e})
+                elif e[0] in ("tuple", "list") and len(e[1]) == len(names) and not any(x[0] == "star" for x in e[1]):
+                    rows.append(dict(zip(names, e[1])))
+                else:
+                    rows = None
+                    break
+            if rows:
+                out = dflt
+                for m in reversed(rows):
+                    conds = [simp(subst(c_, m)) for c_ in ifs]
+                    cond = conds[0] if len(conds) == 1 else ("bool", "And", tuple(conds)) if conds else ("const", True)
+                    t = truthy(cond) if cond[0] == "const" else None
+                    elt = simp(subst(src[2], m))
+                    out = elt if t is True else out if t is False else ("phi", cond, elt, out)
+                return out
+    if k == "cmp" and len(v[1]) == 1 and v[1][0] in ("Is", "IsNot", "Eq", "NotEq") and len(v[2]) == 2:
+        a, b = v[2]
+        tree, other = (a, b) if a[0] in ("phi", "ifexp") else (b, a)
+        if tree[0] in ("phi", "ifexp") and other[0] == "const" and _const_tree(tree) \
+                and (v[1][0] in ("Eq", "NotEq") or other[1] is None or isinstance(other[1], bool)):
+            def test(leaf):
+                same = (leaf[1] is other[1]) if v[1][0] in ("Is", "IsNot") else (type(leaf[1]) is type(other[1]) and leaf[1] == other[1]) or \
+                    (not isinstance(leaf[1], (str, type(None))) and not isinstance(other[1], (str, type(None))) and leaf[1] == other[1])
+                return ("const", same if v[1][0] in ("Is", "Eq") else not same)
+            return _bool_of_tree(_map_leaves(tree, test))
+    if k == "call" and v[1] == ("global", "getattr") and len(v[2]) == 2 and not v[3] and v[2][1][0] in ("phi", "ifexp") and _const_tree(v[2][1]):
+        return _map_leaves(v[2][1], lambda leaf: ("attr", v[2][0], leaf[1]) if isinstance(leaf[1], str) and leaf[1].isidentifier()
+                           else ("call", ("global", "getattr"), (v[2][0], leaf), ()))
+    if k == "call" and v[1][0] in ("phi", "ifexp") and len(v[1]) == 4:
+        leaves = []
+        _map_leaves(v[1], lambda leaf: leaves.append(leaf) or leaf)
+        if any(l_[0] == "attr" for l_ in leaves) and all(l_[0] == "attr" or (l_[0] == "call" and l_[1] == ("global", "getattr")) for l_ in leaves):
+            return _map_leaves(v[1], lambda f: ("meth", f[1], f[2], v[2], v[3]) if f[0] == "attr" else ("call", f, v[2], v[3]))
+    return None
+
+
 def simp(v):
     """Bottom-up simplification with the two rewrite rules of DESIGN E2."""
     if not isinstance(v, tuple) or not v:
@@ -1538,6 +1639,10 @@ def simp(v):
                     continue
             parts.append(p)
         return flatten_fstr(("fstr", tuple(parts)))
+    # ---- first-match selection from a table and the conditional value it yields (values only, nothing is run) ----
+    r_ = _simp_selection(v)
+    if r_ is not None:
+        return r_
     # ---- the same string / list spelled with builtins instead of displays (values only, nothing is run) ----
     if k == "call" and v[1][0] == "global" and not v[3]:
         fn, args = v[1][1], v[2]
